@@ -27,6 +27,9 @@ case 6:
 default:
 	print(a)
 }
+d := 5
+a, d = d, a
+print(a, d)
 `}}
 
 	P2 = Tree{Name: "P2-functions-slices-strings", Main: "main.tsh", Files: map[string]string{"main.tsh": `func sum(xs []int) int {
@@ -107,8 +110,34 @@ print(only())
 `}}
 )
 
+// Perr2 is rejected LATE: by a check of the emitting stage (the data argument of write), after statements
+// that use every numbered or buffered facility (simultaneous assignment, loops, branches, slices, calls,
+// substrings). Whatever an abandoned run has counted or buffered must not reach the next run.
+var Perr2 = Tree{Name: "Perr-late-rejected", Main: "main.tsh", Files: map[string]string{"main.tsh": `func swap(a int, b int) (int, int) {
+	return b, a
+}
+x := 1
+y := 2
+x, y = y, x
+xs := []int{1, 2}
+xs[3] = 4
+for i := 0; i < 2; i++ {
+	if i == 1 {
+		x += i
+	} else if i == 0 {
+		y += i
+	}
+}
+s := "ab"
+print(s[0:1], len(xs), x, y)
+p, q := swap(x, y)
+p, q = q, p
+print(p, q)
+write("f.txt", 1)
+`}}
+
 // AlphabetTrees in alphabet order; call index = 2*tree + target.
-var AlphabetTrees = []Tree{P1, P2, P3, Perr, P4, P5}
+var AlphabetTrees = []Tree{P1, P2, P3, Perr, P4, P5, Perr2}
 
 // Schedule programs: they make the call-graph map that the import merge ranges over non-trivial.
 var (
